@@ -145,7 +145,7 @@ def parse_log(text):
     m = re.search(r"Verification Time: ([0-9.]+)s", text)
     if m:
         r["verif_s"] = float(m.group(1))
-    if "out of memory" in text.lower() or "CBMC failed with status 6" in text or "std::bad_alloc" in text or "Status: ERROR" in text:
+    if "out of memory" in text.lower() or "CBMC failed with status 6" in text or "std::bad_alloc" in text or "Status: ERROR" in text or re.search(r"memory allocation of \d+ bytes failed", text):
         r["oom"] = True
     r["compile_error"] = bool(re.search(r"^error(\[E\d+\])?:", text, re.M)) and r["status"] is None
     return r
@@ -258,10 +258,10 @@ def run_harness(scratch, ob, logdir, cap_scale=1.0):
     if ob.get("flags"):
         cmd += ob["flags"].split()
     cmd += CBMC_TAIL
-    cap = int(ob["cap"] * cap_scale)
+    cap = min(int(ob["cap"] * cap_scale), int(os.environ.get("JV_CAP_MAX", "1000000")))  # JV_CAP_MAX: development surveys only
     # mem=<GB> is the harness's expected resident size (default 3): that much of the memory budget is
     # reserved while it runs; the hard address-space cap is more generous (at least MEM_GB)
-    mem = min(int(ob.get("mem", 3)), MEM_BUDGET_GB)
+    mem = min(int(os.environ.get("JV_MEM_OVERRIDE") or ob.get("mem", 3)), MEM_BUDGET_GB)  # JV_MEM_OVERRIDE: surveys only
     BUDGET.acquire(mem)
     try:
         rc, timed_out, wall = run_cmd(cmd, scratch.crate_for(ob.get("profile", "model")), cap, log, mem_gb=max(MEM_GB, mem + 6))
